@@ -60,6 +60,12 @@ fn escape_help(help: &builder::StyledStr) -> String {
     escape_string(&help.to_string().replace('\n', " "), false)
 }
 
+// The list of possible values is itself put inside double quotes: keep the characters that are
+// special there from ending the string or being expanded
+fn escape_double_quoted(string: &str) -> String {
+    string.replace('"', "\\\"").replace('$', "\\$")
+}
+
 fn escape_name(name: &str) -> String {
     name.replace('-', "_")
 }
@@ -285,11 +291,11 @@ fn value_completion(option: &Arg) -> String {
                 } else {
                     // The help text after \t is wrapped in '' to make sure that the it is taken literally
                     // and there is no command substitution or variable expansion resulting in unexpected errors
-                    Some(format!(
+                    Some(escape_double_quoted(&format!(
                         "{}\\t'{}'",
                         escape_string(value.get_name(), true).as_str(),
                         escape_help(value.get_help().unwrap_or_default())
-                    ))
+                    )))
                 })
                 .collect::<Vec<_>>()
                 .join("\n")
